@@ -68,7 +68,7 @@ func main() {
 		if hits == nil {
 			hits = []MonHit{}
 		}
-		writeJSON(monPath, map[string]interface{}{"hits": hits, "branches": x.branches, "scenarios": x.scenario, "lines": len(lines)})
+		writeJSON(monPath, map[string]interface{}{"hits": hits, "branches": x.branches, "scenarios": x.scenario, "lines": len(lines), "notes": x.notes})
 	default:
 		fmt.Fprintln(os.Stderr, "unknown subcommand", args[0])
 		os.Exit(2)
